@@ -28,7 +28,7 @@ func calleeName(c ssa.CallInstruction) string {
 	}
 	if f := cc.StaticCallee(); f != nil {
 		if f.Object() != nil {
-			return f.Object().(*types.Func).FullName()
+			return refFuncFullName(f.Object().(*types.Func))
 		}
 		return f.String()
 	}
@@ -283,12 +283,19 @@ func strip(v ssa.Value) ssa.Value {
 // access paths
 
 func fieldName(t types.Type, i int) string {
+	var named *types.Named
+	if n, ok := t.(*types.Named); ok {
+		named = n
+	}
 	t = t.Underlying()
 	if p, ok := t.(*types.Pointer); ok {
+		if n, ok := p.Elem().(*types.Named); ok {
+			named = n
+		}
 		t = p.Elem().Underlying()
 	}
 	if s, ok := t.(*types.Struct); ok && i < s.NumFields() {
-		return s.Field(i).Name()
+		return refFieldName(named, s.Field(i).Name())
 	}
 	return fmt.Sprintf("f%d", i)
 }
